@@ -336,8 +336,9 @@ impl DocumentBuilder<'_> {
             let name = self.name_with_index(i)?;
             let mut ty = self.choose_ty(&self.list_existing_input_types())?;
             // Prevent required self-referential input object fields, which
-            // would make the type impossible to construct.
-            if self_name.is_some_and(|n| ty.name() == n) {
+            // would make the type impossible to construct: directly, or
+            // through the required fields of other input objects.
+            if self_name.is_some_and(|n| self.requires_input_object(ty.name(), n)) {
                 if let Ty::NonNull(inner) = ty {
                     ty = *inner;
                 }
@@ -393,6 +394,36 @@ impl DocumentBuilder<'_> {
             default_value,
             directives,
         })
+    }
+
+    /// Whether every value of the input object `from` contains a value of
+    /// the input object `to`: `from` is `to`, or a chain of non-null input
+    /// fields leads from one to the other.
+    fn requires_input_object(&self, from: &Name, to: &Name) -> bool {
+        let mut seen = IndexSet::new();
+        let mut todo = vec![from];
+        while let Some(name) = todo.pop() {
+            if name == to {
+                return true;
+            }
+            if !seen.insert(name) {
+                continue;
+            }
+            for input_object in self
+                .input_object_type_defs
+                .iter()
+                .filter(|io| &io.name == name)
+            {
+                for field in &input_object.fields {
+                    if let Ty::NonNull(inner) = &field.ty {
+                        if let Ty::Named(required) = &**inner {
+                            todo.push(required);
+                        }
+                    }
+                }
+            }
+        }
+        false
     }
 
     fn finite_f64(&mut self) -> arbitrary::Result<f64> {
